@@ -133,6 +133,26 @@ def _flatten_or(node: ast.AST) -> List[ast.AST]:
     return [node]
 
 
+def _chain_env(lp, chain) -> Env:
+    """Values of the locals that the loop body binds in front of the branch chain (`next1 = x1[c1 + 1]`): the guards are
+    read with these definitions substituted, so a comparison of cached operands is the comparison of the operands."""
+    env = Env()
+    for it in lp[2]:
+        if it is chain:
+            break
+        if it[0] == 'simple' and isinstance(it[1], ast.Assign) and len(it[1].targets) == 1 and isinstance(it[1].targets[0], ast.Name):
+            try:
+                env.vals[it[1].targets[0].id] = C.canon_expr(it[1].value, env)
+            except C.CanonError:
+                pass
+        elif it[0] == 'simple' and isinstance(it[1], ast.AugAssign):
+            # a counter stepped in front of the chain (`index += 1`): the guards do not depend on it
+            continue
+        elif it[0] in ('if', 'while', 'for', 'try'):
+            break
+    return env
+
+
 def recognise_cursor_merge(fi: FuncInfo, rule: str) -> Tuple[Optional[MergeRoles], List[Ob]]:
     """The loop `while c1+c2 < N1+N2-2:` with the three-way branch (lemma L1)."""
     obs: List[Ob] = []
@@ -151,7 +171,7 @@ def recognise_cursor_merge(fi: FuncInfo, rule: str) -> Tuple[Optional[MergeRoles
         return None, [inconclusive(rule, 'cursor-merge loop present', fi.loc(), f'{fn}: no while loop with a '
                                    'two-alternative if/elif/else chain found', construct=fn)]
     lp, pre, post, chain = cand
-    env = Env()
+    env = _chain_env(lp, chain)
     roles = MergeRoles(fi, 'cursor', lp, chain, body=lp[2], pre=pre, post=post)
     where = fi.loc(lp[-1])
     try:
@@ -391,8 +411,9 @@ def recognise_add_merge(fi: FuncInfo, rule: str) -> Tuple[Optional[MergeRoles], 
     for tag, rest, op, nd in (('1', r1, op1, nd1), ('2', r2, op2, nd2)):
         kconst = sum((co for m, co in rest[1] if m == ()), start=0)
         good &= req(op == 'lt', f'operand {tag}: bound test is strict', nd, ast.unparse(nd), f'bound{tag}-strict')
-    gA = C.canon_cond(chain[1][0][0], env)
-    gB = C.canon_cond(chain[1][1][0], env)
+    genv = _chain_env(lp, chain)
+    gA = C.canon_cond(chain[1][0][0], genv)
+    gB = C.canon_cond(chain[1][1][0], genv)
     good &= req(gA[0] == 'cmp' and gA[1] == 'lt', 'branch 1 guard is the strict `x1[c1+1] < x2[c2+1]`',
                 chain[1][0][0], C.show(gA), 'guardA-strict')
     good &= req(gB[0] == 'cmp' and gB[1] == 'lt', 'branch 2 guard is the strict `x1[c1+1] > x2[c2+1]`',
